@@ -666,7 +666,13 @@ pub trait DnsRecordExt: fmt::Debug {
     /// Returns true if another record has matched content,
     /// and if its TTL is at least half of this record's.
     fn suppressed_by_answer(&self, other: &dyn DnsRecordExt) -> bool {
-        self.matches(other) && (other.get_record().ttl > self.get_record().ttl / 2)
+        // The cache-flush bit is not part of the identity of a known answer:
+        // RFC 6762 section 10.2 forbids setting it in the Known-Answer list.
+        self.get_name() == other.get_name()
+            && self.get_type() == other.get_type()
+            && self.get_class() == other.get_class()
+            && self.rrdata_match(other)
+            && (other.get_record().ttl > self.get_record().ttl / 2)
     }
 
     /// Required by RFC 6762 Section 7.1: Known-Answer Suppression.
